@@ -299,7 +299,7 @@ def impl_yaml(pl) -> str:
     status, outs = A.run_yaml_tests(A.system(), yaml_of_tests(tests, pl.get("single", False)), "t", pl.get("options") or None,
                                     pl.get("how", "file"))
     if len(outs) != len(tests):
-        raise RuntimeError(f"{len(outs)} outcomes for {len(tests)} tests (status {status}): {outs[:2]}")
+        return f"COLLECTION {len(outs)} outcomes for {len(tests)} tests (exit status {status})"
     verdicts = ["PASS" if o["outcome"] == "passed" else "FAIL" for o in outs]
     if (status == 0) != all(v == "PASS" for v in verdicts):
         return "STATUS-MISMATCH " + " ".join(verdicts)
@@ -788,6 +788,8 @@ def blame(t):
 def oracle_yaml(tests, out: str):
     tests = [materialise(t) for t in tests]
     f = out.split()
+    if f and f[0] == "COLLECTION":
+        return ("yaml:tests-not-run", "run_tests did not run every test of the file: " + out)
     if f and f[0] == "STATUS-MISMATCH":
         return ("yaml:exit-status", "run_tests' exit status disagrees with the per-test outcomes: " + out)
     for t, got in zip(tests, f):
@@ -1356,7 +1358,7 @@ def gen_yaml_group(rng: random.Random, name: str, type_pick=None, relation=None,
     variant = "+".join(k for k, key in (("reform", "reforms"), ("ext", "extensions")) if extra.get(key))
     inp = gen_test_input(rng, single=form in ("variables", "singular"))
     # the test's period: other months, another spelling, an integer year (YAML types an unquoted 2018 as int)
-    tperiod = TEST_PERIOD if plain else rng.choice([TEST_PERIOD] * 7 + ["2017-12", "month:2018-02", 2018])
+    tperiod = TEST_PERIOD if plain else rng.choice([TEST_PERIOD] * 4 + ["2017-12", "2017-12", "2018-03", "month:2018-02", 2018])
     atoms, ids = gen_atoms(rng, inp, 1 if three or type_pick else rng.choice([1, 2, 3]), type_pick, variant,
                            extra.get("max_spiral_loops"), tperiod)
     if not atoms:
@@ -1747,7 +1749,19 @@ PROP = Prop(
           "undecided shapes (ill-typed expectations, lists that do not broadcast, unknown keys/instances, missing output, period or "
           "default margin). `api phist` / `api vforms` / `api params` / scales: /parameter/<id>, /variable/<id>, /parameters, "
           "/variables of the fixed system and of generated ones compared with the system's own Parameter / Variable objects at 21 "
-          "probe dates. Non-trivial = an answered request with at least one null slot, any sequence, YAML file or listing."),
+          "probe dates. Added by the coverage review: non-default default values, documentation / references / formula docstrings, a "
+          "spiralling variable (value depends on max_spiral_loops), a reform and an extension package the tests designate "
+          "(`reforms:` / `extensions:` as a string or a list; the independent engine is a system built directly with the other "
+          "formula / the extra variable), tests' `max_spiral_loops`, keywords, description, test periods in other months / other "
+          "spellings / as an integer year, integer year keys in `output`, margins as quoted numbers, the three input layouts of "
+          "build_from_dict (entities, singular keys, variables only) with and without the default period, a person left out of "
+          "every household, files holding one test as a mapping, run_tests on a path / a list / a directory / a .yml file, the "
+          "options verbose+max_depth(+aggregate), only_variables, ignore_variables (modelled: `shouldIgnore`); bodies that are "
+          "not JSON inside request sequences; `api near`: assert_near called directly on scalars, lists, tuples, arrays; listings: "
+          "dotted legacy ids, trailing slashes, 404s, parameter nodes, /entities, descriptions / documentation / metadata, "
+          "`expected` placeholders, amount and rate scales with brackets introduced later and stopped scales, every variable's "
+          "default value / value type / definition period / entity / possible values. "
+          "Non-trivial = an answered request with at least one null slot, any sequence, YAML file, direct call or listing."),
     assumptions=[
         "the engine is abstract in the model: what the built simulation answers (get_variable, calculate, get_index, "
         "periods.period, describe_entities) is tabulated on each protocol line from an independent run of the real engine; the "
@@ -1769,6 +1783,15 @@ PROP = Prop(
         "full ISO text for date), text that Python's float() rejects, homogeneous lists; a number expected of a date and lists of "
         "numeric text are answered but not binding; the oracle abstains on expectations the statement does not decide "
         "(ill-typed, non-broadcastable, unknown keys) and the correspondence with the model alone speaks there",
+        "a variable that reads itself at an earlier period (spiral) has no value that is a function of (variable, period): what a "
+        "simulation returns for it depends on what was asked before in the same simulation; such a variable is only requested "
+        "at one period per YAML test (with max_spiral_loops) and never through the API streams — on it /trace (first node kept "
+        "under a key) and /calculate (last top-level value) differ, reported as an observation, outside the theorem's hypothesis "
+        "`Coherent`",
+        "run_tests with options={'verbose': True} and no max_depth fails every test (print_computation_log(max_depth=None) raises "
+        "TypeError; the command line passes sys.maxsize): verbose is generated with max_depth; reported as an observation",
+        "two inputs for one slot (two spellings of one period, two periods of an eternal variable) are the builder's business "
+        "(C12) and are not generated as inputs",
         "listings: parameter value histories and formula start dates / end are theorems (C20_listings_partial); scales are compared "
         "with the engine on trees without interior null thresholds only (DESIGN section 7: build_api_scale treats a scale as stopped "
         "when its first bracket stops and emits nothing for a threshold that becomes null in mid-history) — not binding",
